@@ -14,6 +14,9 @@ from .. import uscan
 def run(ctx):
     from .configtime import derived_values as _derived
     _derived(ctx, 'C14.R3', ('Unit', 'Substance', 'Container'))
+    # the parsers are memoised: what they hand out (token lists, tuples) is shared by every later call with the same text
+    from .c10 import cached_results_intact as _cached_intact
+    _cached_intact(ctx, 'C14.R3')
     from .configtime import cached_arrays_not_updated_in_place as _cached_arrays
     _cached_arrays(ctx, 'C14.R4', ('Container.create_solution', 'Container.create_solution_from'))
     from .configtime import quantities_parsed_by_unit_only as _one_grammar
